@@ -466,6 +466,9 @@ class SymX:
     def conjugate(self):
         return self
 
+    def item(self):
+        return self
+
     def __floor__(self):
         return _CTX.floor_of(self)
 
